@@ -279,3 +279,79 @@ fn c11_otaa_handle_rx_eu868_badlen() {
     let l = [0usize, 1, 16, 18, 32, 34];
     otaa_handle_rx_contract::<false>(5, l[2]);
 }
+
+// ------------------------------------------------------------------ Mac::join_otaa: a join attempt starts from the credentials it is given
+// From ANY MAC state -- never activated, joined with any session, or an earlier join attempt still pending with ANY other
+// (or the same) credentials -- join_otaa(cred) leaves the MAC in State::Otaa holding exactly `cred` (JoinEUI, DevEUI and
+// AppKey) and the DevNonce it put on the air; the JoinRequest in the buffer carries those identifiers and that nonce and
+// is authenticated under `cred`'s AppKey (the crypto context is created from that key); nothing of an earlier attempt survives.
+pub(crate) static mut CRYPTO_NEW_KEYS: [[u8; 16]; 2] = [[0; 16]; 2];
+pub(crate) static mut CRYPTO_NEW_CALLS: usize = 0;
+pub(crate) fn stub_crypto_new_rec(key: &lorawan::keys::AES128) -> DefaultCrypto {
+    unsafe { if CRYPTO_NEW_CALLS < 2 { CRYPTO_NEW_KEYS[CRYPTO_NEW_CALLS] = key.0; } CRYPTO_NEW_CALLS += 1; }
+    stub_crypto_new(key)
+}
+fn cred_bytes(c: &NetworkCredentials) -> ([u8; 8], [u8; 8], [u8; 16]) {
+    let mut a = [0u8; 8]; a.copy_from_slice(c.appeui().as_ref());
+    let mut d = [0u8; 8]; d.copy_from_slice(c.deveui().as_ref());
+    (a, d, c.appkey().inner().0)
+}
+fn mac_join_otaa_contract(ri: usize) {
+    tape::init();
+    let region = region::Configuration::new(ALL_REGIONS[ri]);
+    let configuration = { let mut c = any_mac_configuration(&region); kani::assume(region.rx1_dr_offset_validate(c.rx1_dr_offset).is_some()); c };
+    let (max_power, antenna_gain) = (tape::u8(), tape::i8());
+    kani::assume(max_power <= 30 && antenna_gain >= -30 && antenna_gain <= 30);   // A-board
+    // the earlier state: 0 = never activated, 1 = joined, 2 = a join attempt pending with credentials that may coincide, field by field, with the new ones
+    let cred = any_credentials();
+    let (appeui, deveui, appkey) = cred_bytes(&cred);
+    let prev = tape::below(3);
+    let state = match prev {
+        0 => crate::mac::State::Unjoined,
+        1 => crate::mac::State::Joined(crate::mac::session::verif_session::any_session()),
+        _ => {
+            let same_join_eui = tape::boolean(); let same_dev_eui = tape::boolean(); let same_key = tape::boolean();
+            let other = any_credentials();
+            let (oa, od, ok) = cred_bytes(&other);
+            let earlier = NetworkCredentials::new(AppEui::from(if same_join_eui { appeui } else { oa }), DevEui::from(if same_dev_eui { deveui } else { od }), AppKey::from(if same_key { appkey } else { ok }));
+            let mut o = Otaa::new(earlier);
+            o.dev_nonce = DevNonce::from_value(tape::u16());
+            crate::mac::State::Otaa(o)
+        }
+    };
+    let mut m = crate::mac::Mac { configuration, region, board_eirp: crate::mac::BoardEirp { max_power, antenna_gain }, state };
+    let mic: [u8; 4] = tape::arr();
+    unsafe { JG.mic_ret = mic; }
+    let mut rng = TapeRng { draws: 0, free: 3, accept: 0 };
+    let mut buf: RadioBuffer<64> = RadioBuffer::new();
+    let (tx, _windows, nonce) = m.join_otaa::<TapeRng, 64>(&mut rng, cred, &mut buf);
+    match &m.state {
+        crate::mac::State::Otaa(o) => {
+            let (a2, d2, k2) = cred_bytes(&o.network_credentials);
+            assert!(a2 == appeui && d2 == deveui, "C11 the pending join holds the JoinEUI / DevEUI it was started with");
+            assert!(k2 == appkey, "C11 the pending join holds the AppKey it was started with (JoinAccept authentication and session-key derivation use it), whatever an earlier attempt used");
+            assert!(o.dev_nonce.value() == nonce, "C11 the DevNonce put on the air is the one remembered for the key derivation");
+        }
+        _ => assert!(false, "C11 join_otaa leaves the MAC waiting for the JoinAccept"),
+    }
+    let out = buf.as_ref_for_read();
+    let g = unsafe { &*(&raw const JG) };
+    assert!(out.len() == 23 && out[0] == 0x00 && out[1..9] == appeui && out[9..17] == deveui && out[17] == nonce as u8 && out[18] == (nonce >> 8) as u8, "C11 the JoinRequest on the air carries the identifiers given to this join and the fresh DevNonce");
+    assert!(g.mic_calls == 1 && g.mic_data_len == 19 && out[19..23] == mic, "C11 one MIC over MHDR..DevNonce, appended");
+    assert!(unsafe { CRYPTO_NEW_CALLS } >= 1 && unsafe { CRYPTO_NEW_KEYS[CRYPTO_NEW_CALLS.min(2) - 1] } == appkey, "C11 the JoinRequest MIC is computed under the AppKey given to this join");
+    assert!(m.region.frequency_valid(tx.rf.frequency) && tx.pw as i32 <= max_power as i32, "C09 the JoinRequest goes out in band, within the radio's power");
+    kani::cover!(prev == 2, "verif-reached: earlier attempt pending");
+    kani::cover!(prev == 1, "verif-reached: re-join from a session");
+}
+// @verif props=C11,C04 obligation=Mac::join_otaa.contract[EU868] label=proved-complete tier=quick bound="any earlier MAC state (unjoined / joined with any session / join pending with credentials equal or different field by field), any credentials, any MAC configuration; fresh channel plan"
+#[kani::proof]
+#[kani::stub(lorawan::default_crypto::DefaultCrypto::new, stub_crypto_new_rec)]
+#[kani::stub(<lorawan::default_crypto::DefaultCrypto as lorawan::keys::Crypto>::calculate_mic, stub_calculate_mic_join)]
+#[kani::unwind(74)]
+fn c11_mac_join_otaa_eu868() { mac_join_otaa_contract(5) }
+// @verif props=C11,C04 obligation=Mac::join_otaa.contract[US915] label=proved-complete tier=quick bound="as EU868, fixed channel plan (join channel drawn from the unexplored set)"
+#[kani::proof]
+#[kani::stub(lorawan::default_crypto::DefaultCrypto::new, stub_crypto_new_rec)]
+#[kani::stub(<lorawan::default_crypto::DefaultCrypto as lorawan::keys::Crypto>::calculate_mic, stub_calculate_mic_join)]
+#[kani::unwind(74)]
+fn c11_mac_join_otaa_us915() { mac_join_otaa_contract(8) }
